@@ -393,9 +393,9 @@ _ = history
 
 STREAMS = {
     "structure_grid": Stream("structure_grid", oracle=oracle_structure, enumerate=enumerate_grid, exhaustive=True, shards_quick=8, shards_thorough=16),
-    "structure": Stream("structure", oracle=oracle_structure, strategy=strategy_structure, quick=6000, thorough=150000, shards_quick=4, shards_thorough=16),
-    "structure_large": Stream("structure_large", oracle=oracle_structure, strategy=strategy_structure_large, quick=600, thorough=20000, shards_quick=4, shards_thorough=16),
-    "structure_many": Stream("structure_many", oracle=oracle_structure, strategy=lambda: _strategy_structure_many([1024, 1024, 1030, 1100, 2048]), quick=64, thorough=1500, shards_quick=16, shards_thorough=16),
+    "structure": Stream("structure", oracle=oracle_structure, strategy=strategy_structure, quick=6000, thorough=60000, shards_quick=4, shards_thorough=16),
+    "structure_large": Stream("structure_large", oracle=oracle_structure, strategy=strategy_structure_large, quick=600, thorough=6000, shards_quick=4, shards_thorough=16),
+    "structure_many": Stream("structure_many", oracle=oracle_structure, strategy=lambda: _strategy_structure_many([1024, 1024, 1030, 1100, 2048]), quick=64, thorough=600, shards_quick=16, shards_thorough=16),
     "structure_huge": Stream("structure_huge", oracle=oracle_structure, strategy=lambda: _strategy_structure_many([4096, 8192, 16384, 65536]), quick=0, thorough=48, shards_quick=16, shards_thorough=16),
-    "metamorphic": Stream("metamorphic", oracle=oracle_meta, strategy=strategy_meta, quick=1200, thorough=30000, shards_quick=16, shards_thorough=16),
+    "metamorphic": Stream("metamorphic", oracle=oracle_meta, strategy=strategy_meta, quick=1200, thorough=10000, shards_quick=16, shards_thorough=16),
 }
